@@ -10,6 +10,7 @@ INVARIANT Passthrough
 INVARIANT ShortCircuit
 INVARIANT CtorLaw
 INVARIANT Unorderable
+INVARIANT HistoryFree
 CHECK_DEADLOCK FALSE
 CONSTANTS
   Mutant = "and_continue"
